@@ -93,6 +93,9 @@ var c08Pool = func() []poolEntry {
 		"[1 + 2, 3 + 4, a - b, a * b]", "(a + b) * (c - x) / (y + 1)", "[a / 3, b / 3, a % 2, b % 2]", "[-a, -b, +a, ~c, ~x]", "$m = a + b, $k = a + c, [$m, $k]",
 		"((a + 1)) * 2", "max(((a)), 2) + (((b)))", "(((s)))", "c ? ((a)) : ((b))",
 		"leaked + other.path + this.b", "a + (b).c", "f(x).y + zz", "[first, (second).k, third]",
+		"toInt(1e-70) + floor(1e-80) + ceil(-1e-90) + round(1e-100) + roundBank(-1e-75)", "toString(2/3) + '|' + toString(1/7*3) + '|' + toString(2/3*3 == 2) + '|' + toString(1/3 + 1/3)",
+		"date(1e-70, 1, 1)", "left(s, 1e-70) + toString(10/3)", "[1e-70 % 3, 7 % 1e9000, 1e9000 % 7]",
+		"(n ?? n)!.c", "(n ? a : n)!.c", "(z && n)!.x", "[n][0]", "f(1, 'x')!.y", "(a + b)!.z", "(typeof n)!.k + 1",
 		"foo()", "left(s,-1)", "n!.y", "regexp(s,'(')", "ef()", "x = 1", "[a].b",
 	}
 	var pool []poolEntry
